@@ -7,7 +7,7 @@ every set of <= r rules.  Case: (rules,) with rules a sorted tuple of rule tuple
 """
 from itertools import combinations, permutations
 
-NT = ["S", "A", "B"]
+NT = ["S", "A", "B", "C", "D", "E", "F"]
 IX = ["f", "g"]
 
 
@@ -64,3 +64,37 @@ def ref_rules(case):
         else:
             out.append(("dup", NT[r[1]], NT[r[2]], NT[r[3]]))
     return out
+
+
+def dup_chain_cases():
+    """4 non-terminals S,A,B,C: one end rule + three duplication rules (chains of duplication rules, listed in any
+    order by the check); modulo renaming of A,B,C"""
+    dups = [(3, x, y, z) for x in range(4) for y in range(4) for z in range(4)]
+    for e in range(4):
+        for sub in combinations(dups, 3):
+            c = (tuple(sorted(((0, e, 0, 0),) + sub)),)
+            if is_rep(c, 4, 2):
+                yield c
+
+
+def stack_chain_cases(kmax=5, extra_upto=3):
+    """chain grammars N0 -> N1 -> ... -> Nk -> a where every step pushes or pops f or g (all 4^k step sequences,
+    k <= kmax); for k <= extra_upto additionally one extra consumption rule Ni[x] -> Nj"""
+    from itertools import product
+    for k in range(1, kmax + 1):
+        for steps in product(range(4), repeat=k):
+            rules = []
+            for i, st in enumerate(steps):
+                if st < 2:
+                    rules.append((1, i, i + 1, st))          # Ni -> Ni+1[f/g]
+                else:
+                    rules.append((2, st - 2, i, i + 1))      # Ni[f/g] -> Ni+1
+            rules.append((0, k, 0, 0))
+            yield (tuple(sorted(rules)),)
+            if k <= extra_upto:
+                for x in range(2):
+                    for i in range(k + 1):
+                        for j in range(k + 1):
+                            extra = (2, x, i, j)
+                            if extra not in rules:
+                                yield (tuple(sorted(rules + [extra])),)
